@@ -15,7 +15,13 @@ This private submodule is *not* intended for importation by downstream callers.
 # ....................{ IMPORTS                            }....................
 from beartype.roar import BeartypeClawImportConfException
 from beartype._conf.confmain import BeartypeConf
+from functools import partial
 from pprint import pformat
+from typing import (
+    Callable,
+    Dict,
+    Optional,
+)
 
 # Original cache_from_source() function defined by the private (*gulp*)
 # "importlib._bootstrap_external" submodule, preserved *BEFORE* temporarily
@@ -200,7 +206,13 @@ class ModuleNameToBeartypeConf(dict[str, 'BeartypeConf']):
 
 # ....................{ CACHERS                            }....................
 #FIXME: Unit test us up, please.
-def cache_from_source_beartype(*args, **kwargs) -> str:
+def cache_from_source_beartype(
+    *args,
+
+    # Optional beartype-specific keyword-only parameters.
+    beartype_conf: Optional[BeartypeConf] = None,
+    **kwargs
+) -> str:
     '''
     Beartype-specific variant of the
     :func:`importlib._bootstrap_external.cache_from_source` function applying a
@@ -212,6 +224,20 @@ def cache_from_source_beartype(*args, **kwargs) -> str:
     ``".pyc{optimization}_{OPTIMIZATION_MARKER_BEARTYPE}"``, where
     ``{optimization}`` is the original ``optimization`` parameter passed to this
     function call.
+
+    Parameters
+    ----------
+    beartype_conf : Optional[BeartypeConf]
+        Beartype configuration under which the module being cached is compiled
+        if any *or* :data:`None` otherwise. The abstract syntax tree (AST)
+        transformation applied to that module (and thus the bytecode compiled
+        from that module) depends on several options of this configuration. This
+        marker is thus additionally suffixed by those options when they differ
+        from their defaults, preventing bytecode compiled under one
+        configuration from being silently reused under another configuration
+        that would have compiled that module differently.
+
+    All remaining parameters are passed as is to the original function.
     '''
 
     # Avoid circular import dependencies.
@@ -224,7 +250,71 @@ def cache_from_source_beartype(*args, **kwargs) -> str:
     # New optimization parameter applied by this monkey-patch of that function,
     # uniquifying that parameter with a beartype-specific suffix.
     kwargs['optimization'] = (
-        f'{optimization_marker_nonbeartype}{OPTIMIZATION_MARKER_BEARTYPE}')
+        f'{optimization_marker_nonbeartype}{OPTIMIZATION_MARKER_BEARTYPE}'
+        f'{_get_optimization_marker_conf(beartype_conf)}'
+    )
 
     # Defer to the implementation of the original cache_from_source() function.
     return cache_from_source_original(*args, **kwargs)
+
+
+def make_cache_from_source_beartype(conf: BeartypeConf) -> Callable[..., str]:
+    '''
+    Beartype-specific variant of the
+    :func:`importlib._bootstrap_external.cache_from_source` function specific to
+    the passed beartype configuration, memoized for efficiency.
+    '''
+
+    cache_from_source_beartype_conf = _CONF_TO_CACHE_FROM_SOURCE.get(conf)
+
+    if cache_from_source_beartype_conf is None:
+        cache_from_source_beartype_conf = _CONF_TO_CACHE_FROM_SOURCE[conf] = (
+            partial(cache_from_source_beartype, beartype_conf=conf))
+
+    return cache_from_source_beartype_conf
+
+# ....................{ PRIVATE                            }....................
+_CONF_TO_CACHE_FROM_SOURCE: Dict[BeartypeConf, Callable[..., str]] = {}
+'''
+Dictionary mapping from each beartype configuration to the variant of the
+:func:`.cache_from_source_beartype` function specific to that configuration.
+'''
+
+
+def _get_optimization_marker_conf(conf: Optional[BeartypeConf]) -> str:
+    '''
+    Alphanumeric substring uniquifying the beartype-specific optimization marker
+    to the options of the passed beartype configuration that change the
+    abstract syntax tree (AST) transformation applied by beartype import hooks
+    if these options differ from their defaults *or* the empty string otherwise.
+
+    Note that this substring is intentionally derived from the values of these
+    options rather than the hash of this configuration, which differs across
+    Python processes and would thus prevent bytecode from being reused at all.
+    '''
+
+    # If no configuration was passed, there is nothing to uniquify.
+    if conf is None:
+        return ''
+    # Else, a configuration was passed.
+
+    # Avoid circular import dependencies.
+    from beartype._conf.confcommon import BEARTYPE_CONF_DEFAULT
+
+    # If all of these options are the defaults, preserve the default marker.
+    if (
+        conf.claw_is_pep526 is BEARTYPE_CONF_DEFAULT.claw_is_pep526 and
+        conf.claw_decor_place_func is (
+            BEARTYPE_CONF_DEFAULT.claw_decor_place_func) and
+        conf.claw_decor_place_type is (
+            BEARTYPE_CONF_DEFAULT.claw_decor_place_type)
+    ):
+        return ''
+    # Else, one or more of these options are *NOT* the defaults.
+
+    # Return a substring embedding the values of these options.
+    return (
+        f'p{int(conf.claw_is_pep526)}'
+        f'f{conf.claw_decor_place_func.value}'
+        f't{conf.claw_decor_place_type.value}'
+    )
